@@ -7,6 +7,7 @@
 //	                                        points: the fixed header mutations, then about n records (input x entry point)
 //	harness-frame mutators <n>              sequences of frame mutators (C20) and of Startup accessors
 //	harness-frame specbytes                 hand-written specification-formatted frames the encoder never emits, decoded by the codec
+//	harness-frame growth                    allocation volume of the decoders on input families of size n and 4n (growth rate)
 //	harness-frame selftest                  a Coq file with one populated term of every message kind and data type
 //	harness-frame one <entry> <version> <compression> <hex>   a single malformed case in this process (replay)
 //	harness-frame worker                    (internal) malformed cases from stdin, one JSON line each
@@ -66,6 +67,8 @@ func main() {
 		cmdMutators(os.Args[2:])
 	case "specbytes":
 		cmdSpecBytes()
+	case "growth":
+		cmdGrowth()
 	case "selftest":
 		cmdSelftest()
 	case "one":
